@@ -305,6 +305,33 @@ Proof.
     apply to_dense_checked; [reflexivity|exact R|apply scan_represents; exact R].
 Qed.
 
+Lemma dokrows_to_coo c (l : list row_entries) shape : l <> [] -> 0 < c ->
+  to_coo (InDokRows (map (fun e => (c, e)) l)) shape = coo_checked (length l) c (flatten l).
+Proof.
+  intros Hne Hc. destruct l as [|e l]; [contradiction|].
+  assert (S : map snd (map (fun e : row_entries => (c, e)) (e :: l)) = e :: l).
+  { rewrite map_map. simpl. f_equal. apply map_id. }
+  unfold to_coo. change (map (fun e0 : row_entries => (c, e0)) (e :: l))
+    with ((c, e) :: map (fun e0 : row_entries => (c, e0)) l) at 1.
+  cbv iota beta. replace (Nat.ltb c 1) with false by (symmetry; apply Nat.ltb_ge; lia).
+  rewrite S, map_length. reflexivity.
+Qed.
+
+(* a list of dok rows (a dok_matrix is a dict: list_dict_to_sparse): the rows state the width *)
+Theorem faithful_dokrows m c shape : rect c m -> 0 < c -> (m = [] -> shape = (0, c)) ->
+  to_dense (enc_dokrows c m) shape = ROk (length m, c, m).
+Proof.
+  intros R Hc Hs. unfold to_dense, enc_dokrows. destruct m as [|r m'] eqn:Em.
+  - rewrite (Hs eq_refl). reflexivity.
+  - rewrite <- Em in *.
+    replace (map (fun r0 : list Z => (c, nz_row (enum_from 0 r0))) m)
+      with (map (fun e : row_entries => (c, e)) (map (fun r0 => nz_row (enum_from 0 r0)) m))
+      by (rewrite map_map; reflexivity).
+    rewrite dokrows_to_coo by (try (rewrite Em; discriminate); exact Hc).
+    rewrite flatten_nz_rows, map_length.
+    apply to_dense_checked; [reflexivity|exact R|apply scan_represents; exact R].
+Qed.
+
 (* ---- list of row dicts: general statement for dicts keyed (0, column) *)
 Lemma nmax_ge x l : In x l -> x <= nmax l.
 Proof.
